@@ -334,6 +334,16 @@ def _s(s):
     s.out, s.out_name = t, "t"
 
 
+@scenario("param.transformed.exp_cached", "torchtree.core.parameter.TransformedParameter")
+def _s(s):
+    """a torch transform built with cache_size=1 (reachable from a specification: "parameters": {"cache_size": 1})"""
+    from torchtree.core.parameter import TransformedParameter
+    x = s.P("x", [0.1, -0.3], "real")
+    t = s.D("t", TransformedParameter("t", x, torch.distributions.ExpTransform(cache_size=1)), "pos")
+    s.E("t.__call__", lambda: t())
+    s.out, s.out_name = t, "t"
+
+
 @scenario("param.transformed.list", "torchtree.core.parameter.TransformedParameter")
 def _s(s):
     from torchtree.core.parameter import TransformedParameter
@@ -2426,7 +2436,18 @@ def _explanations(scn_name):
             quals.append(q)
     # internal helpers (CatParameter inside TransformedParameter, Container, ...)
     out = []
+
+    def parametric_transform(o):
+        t = getattr(o, "transform", None)
+        if t is None:
+            return False
+        return any(hasattr(v, "fire_parameter_changed") or hasattr(v, "fire_model_changed") or (isinstance(v, (list, tuple)) and any(hasattr(w, "fire_parameter_changed") for w in v))
+                   for v in vars(t).values())
     for q in quals:
+        # the open finding on TransformedParameter is about transforms that hold parameters / models of their own: it explains nothing in a
+        # graph whose transforms have none
+        if q.endswith(".TransformedParameter") and not any(parametric_transform(o) for o in s.all_objects().values() if _qual(o) == q):
+            continue
         for name, fn in _CLASS_OBS.get(q, []):
             try:
                 fn()
